@@ -36,6 +36,10 @@ pub enum Case {
         max_dials: u8,
         /// order in which the remaining in-flight items are drained at the end
         drain: Vec<u16>,
+        /// the documents really exist in both stores and are started / left through the real `start_sync` / `leave`;
+        /// the schedule may additionally leave and re-join the document and queue / complete content downloads
+        #[serde(default)]
+        lifecycle: bool,
     },
     /// one explicit schedule: the index of the chosen enabled event at every step (then always 0)
     Exact { swap: bool, max_dials: u8, choices: Vec<u16> },
@@ -47,6 +51,13 @@ pub struct Fixture {
     pub actors: Vec<LiveActor>,
     pub ids: Vec<PublicKey>,
     pub counter: u64,
+}
+
+/// What a lifecycle run observed about the stores (judged by C10: "a declined request changes nothing in the store").
+#[derive(Debug, Default, Clone)]
+pub struct StoreNote {
+    pub violation: Option<String>,
+    pub declined_or_failed_sessions_observed: u64,
 }
 
 async fn mk_actor(seed: u8) -> R<(LiveActor, PublicKey)> {
@@ -116,8 +127,8 @@ impl Prop for C11 {
 
     fn strategy(tier: Tier) -> BoxedStrategy<Case> {
         let max = tier.pick(24, 40);
-        (any::<bool>(), vec((any::<u16>(), any::<u8>()).prop_map(|(which, flavour)| Pick { which, flavour }), 1..=max), tier.pick(2u8..=4, 2u8..=6), vec(any::<u16>(), 0..8))
-            .prop_map(|(swap, picks, max_dials, drain)| Case::Random { swap, picks, max_dials, drain })
+        (any::<bool>(), vec((any::<u16>(), any::<u8>()).prop_map(|(which, flavour)| Pick { which, flavour }), 1..=max), tier.pick(2u8..=4, 2u8..=6), vec(any::<u16>(), 0..8), prop::bool::weighted(0.03))
+            .prop_map(|(swap, picks, max_dials, drain, lifecycle)| Case::Random { swap, picks, max_dials, drain, lifecycle })
             .boxed()
     }
 
@@ -176,6 +187,13 @@ struct World {
     /// (I2) bookkeeping: ids of two requests dialled back to back, and what happened since
     pair: Option<(u32, u32, Vec<Option<bool>>)>,
     last_event_was_dial_of: Option<u32>,
+    /// lifecycle model: is the document being synced at node n; hashes queued for download at node n; leaves so far
+    syncing: [bool; 2],
+    queued: [Vec<u8>; 2],
+    next_hash: u8,
+    leaves: u8,
+    /// sessions that finished successfully at node n (its store may then list the peer)
+    ok_completions: [u32; 2],
 }
 
 /// How the next event is chosen.
@@ -185,7 +203,7 @@ enum Chooser<'a> {
     Exact { choices: &'a [u16], lens: Vec<usize>, step: usize },
 }
 
-fn run(ctx: &mut Ctx, c: &Case, o: &mut Outcome) -> R<()> {
+pub fn run(ctx: &mut Ctx, c: &Case, o: &mut Outcome) -> R<StoreNote> {
     fixture(ctx)?;
     let mut fx = ctx.fixtures.remove("c11").ok_or("fixture")?;
     let res = {
@@ -193,13 +211,13 @@ fn run(ctx: &mut Ctx, c: &Case, o: &mut Outcome) -> R<()> {
         let rt = &ctx.rt;
         rt.block_on(async {
             match c {
-                Case::Random { swap, picks, max_dials, drain } => {
+                Case::Random { swap, picks, max_dials, drain, lifecycle } => {
                     let mut ch = Chooser::Picks { picks: picks.iter(), drain, drain_i: 0 };
-                    run_inner(f, *swap, *max_dials, &mut ch, o).await
+                    run_inner(f, *swap, *max_dials, &mut ch, *lifecycle, o).await
                 }
                 Case::Exact { swap, max_dials, choices } => {
                     let mut ch = Chooser::Exact { choices, lens: vec![], step: 0 };
-                    run_inner(f, *swap, *max_dials, &mut ch, o).await
+                    run_inner(f, *swap, *max_dials, &mut ch, false, o).await
                 }
                 Case::Exhaustive { swap, max_dials, prefix } => {
                     o.class("exhaustive-subtree");
@@ -208,7 +226,7 @@ fn run(ctx: &mut Ctx, c: &Case, o: &mut Outcome) -> R<()> {
                     loop {
                         let mut trial = Outcome::default();
                         let mut ch = Chooser::Exact { choices: &choices, lens: vec![], step: 0 };
-                        run_inner(f, *swap, *max_dials, &mut ch, &mut trial).await?;
+                        run_inner(f, *swap, *max_dials, &mut ch, false, &mut trial).await?;
                         let Chooser::Exact { lens, .. } = ch else { unreachable!() };
                         // a prefix choice beyond the enabled set: empty subtree
                         if prefix.iter().enumerate().any(|(i, c)| lens.get(i).map(|l| *c as usize >= *l).unwrap_or(true)) {
@@ -252,7 +270,7 @@ fn run(ctx: &mut Ctx, c: &Case, o: &mut Outcome) -> R<()> {
                         }
                     }
                     o.count("schedules_enumerated_exhaustively", n);
-                    Ok(())
+                    Ok(StoreNote::default())
                 }
             }
         })
@@ -286,7 +304,7 @@ fn note_followup(w: &mut World, node: usize, started: bool, o: &mut Outcome, wha
     }
 }
 
-async fn run_inner(f: &mut Fixture, swap: bool, max_dials: u8, chooser: &mut Chooser<'_>, o: &mut Outcome) -> R<()> {
+async fn run_inner(f: &mut Fixture, swap: bool, max_dials: u8, chooser: &mut Chooser<'_>, lifecycle: bool, o: &mut Outcome) -> R<StoreNote> {
     f.counter += 1;
     let mut nsb = [0x5Cu8; 32];
     nsb[..8].copy_from_slice(&f.counter.to_le_bytes());
@@ -295,10 +313,60 @@ async fn run_inner(f: &mut Fixture, swap: bool, max_dials: u8, chooser: &mut Cho
     let mut other = nsb;
     other[31] ^= 0xFF;
     let not_syncing = NamespaceId::from(&other);
-    for a in f.actors.iter_mut() {
-        a.verif_insert_namespace(ns);
-    }
     let map = if swap { [1, 0] } else { [0, 1] };
+    let mut note = StoreNote::default();
+    if lifecycle {
+        o.class("lifecycle(real start_sync / leave, documents exist in the stores)");
+        // both documents exist in both stores; `ns` is synced on both nodes, `not_syncing` only on node 1
+        for (i, a) in f.actors.iter_mut().enumerate() {
+            let sync = a.verif_sync_handle();
+            es(sync.import_namespace(iroh_docs::Capability::Read(ns)).await)?;
+            es(sync.import_namespace(iroh_docs::Capability::Read(not_syncing)).await)?;
+            if a.verif_start_sync(ns).await != Some(false) {
+                return Err("start_sync failed (or dialled from an empty store)".into());
+            }
+            if i == map[1] && a.verif_start_sync(not_syncing).await != Some(false) {
+                return Err("start_sync failed (or dialled from an empty store)".into());
+            }
+        }
+    } else {
+        for a in f.actors.iter_mut() {
+            a.verif_insert_namespace(ns);
+        }
+    }
+    let res = run_world(f, ns, not_syncing, map, max_dials, chooser, lifecycle, o, &mut note).await;
+    if lifecycle {
+        // leave everything and remove the documents again (the fixture's stores are reused by the next case)
+        for a in f.actors.iter_mut() {
+            for d in [ns, not_syncing] {
+                let _ = a.verif_leave(d).await;
+                let sync = a.verif_sync_handle();
+                while let Ok(false) = sync.close(d).await {}
+                let _ = sync.drop_replica(d).await;
+            }
+        }
+    }
+    res.map(|_| note)
+}
+
+/// The store must not show a trace of sessions that were declined, lost or failed: no useful peer registered, no entries.
+async fn store_untouched(f: &Fixture, node: usize, doc: NamespaceId, what: &str) -> R<Option<String>> {
+    let sync = f.actors[node].verif_sync_handle();
+    es(sync.open(doc, Default::default()).await)?;
+    let peers = es(sync.get_sync_peers(doc).await)?;
+    let entries = crate::act::dump(&sync, doc).await?;
+    let _ = es(sync.close(doc).await)?;
+    if let Some(p) = peers {
+        return Ok(Some(format!("{what}: the store now lists {} useful peer(s) for the document", p.len())));
+    }
+    if !entries.is_empty() {
+        return Ok(Some(format!("{what}: the store now holds {} entries", entries.len())));
+    }
+    Ok(None)
+}
+
+#[allow(clippy::too_many_arguments)]
+async fn run_world(f: &mut Fixture, ns: NamespaceId, not_syncing: NamespaceId, map: [usize; 2], max_dials: u8, chooser: &mut Chooser<'_>, lifecycle: bool, o: &mut Outcome, note: &mut StoreNote) -> R<()> {
     o.class(if f.ids[map[0]].as_bytes() > f.ids[map[1]].as_bytes() { "node0-has-greater-id" } else { "node0-has-smaller-id" });
     let mut w = World {
         ns,
@@ -315,8 +383,48 @@ async fn run_inner(f: &mut Fixture, swap: bool, max_dials: u8, chooser: &mut Cho
         dial_while_other_running: false,
         pair: None,
         last_event_was_dial_of: None,
+        syncing: [true, true],
+        queued: [vec![], vec![]],
+        next_hash: 0,
+        leaves: 0,
+        ok_completions: [0, 0],
     };
 
+    // (I5, lifecycle) node 1 syncs `not_syncing`, node 0 only holds it: node 1's dial must be declined as not found, the
+    // decline must leave node 0's state and both stores untouched and free node 1's slot
+    if lifecycle {
+        let (acc, con) = (map[0], map[1]);
+        let started = f.actors[con].verif_sync_with_peer(not_syncing, f.ids[acc], SyncReason::DirectJoin);
+        if !started {
+            o.fail("C11/dial-refused-while-idle", "node 1 refused to dial for a document it syncs".to_string());
+            return Ok(());
+        }
+        let out = f.actors[acc].accept_sync_request(not_syncing, f.ids[con]);
+        if !matches!(out, AcceptOutcome::Reject(AbortReason::NotFound)) {
+            o.fail("C11/I5-not-found", format!("a request for a document that is held but not syncing got {:?}", out));
+            return Ok(());
+        }
+        let _ = f.actors[acc].verif_accept_finished(Err(AcceptError::Abort { peer: f.ids[con], namespace: not_syncing, reason: AbortReason::NotFound })).await;
+        let again = f.actors[con].verif_connect_finished(not_syncing, f.ids[acc], SyncReason::DirectJoin, Err(ConnectError::RemoteAbort(AbortReason::NotFound))).await;
+        if again {
+            o.fail("C11/I3-resync-without-refused-report", "a dial declined as not found was followed by another dial".to_string());
+            return Ok(());
+        }
+        if f.actors[acc].verif_is_syncing(&not_syncing) {
+            o.fail("C11/I5-not-found", "the declined request made the accepting node sync the document".to_string());
+            return Ok(());
+        }
+        if is_running(&f.actors[con].verif_snapshot(&not_syncing, &f.ids[acc])) {
+            o.fail("C11/I4-stuck-running-connect", "declined as not found, but the dialling node still marks the peer as running".to_string());
+            return Ok(());
+        }
+        note.declined_or_failed_sessions_observed += 1;
+        for (node, who) in [(acc, "the accepting node declined a request as not found"), (con, "the dialling node's request was declined as not found")] {
+            if let Some(v) = store_untouched(f, node, not_syncing, who).await? {
+                note.violation.get_or_insert(v);
+            }
+        }
+    }
     // (I5) a request for a document that is not syncing
     {
         let before = (snapshot(f, &w, 0).await, snapshot(f, &w, 1).await);
@@ -346,12 +454,35 @@ async fn run_inner(f: &mut Fixture, swap: bool, max_dials: u8, chooser: &mut Cho
             Dial(usize, SyncReason),
             Deliver(usize, bool),
             Lose(usize),
+            Leave(usize),
+            Join(usize),
+            Queue(usize),
+            Ready(usize, bool),
         }
         let mut enabled: Vec<Ev> = vec![];
         if !draining && w.dials < max_dials {
             for n in 0..2 {
                 enabled.push(Ev::Dial(n, SyncReason::NewNeighbor));
                 enabled.push(Ev::Dial(n, SyncReason::SyncReport));
+            }
+        }
+        if lifecycle && !draining {
+            for n in 0..2 {
+                // a leave only when nothing is in flight: sessions that overlap a leave (and their stale completions after a
+                // re-join) are outside the property's quantifier
+                if w.syncing[n] && w.leaves < 3 && w.inflight.is_empty() {
+                    enabled.push(Ev::Leave(n));
+                }
+                if !w.syncing[n] {
+                    enabled.push(Ev::Join(n));
+                }
+                if w.queued[n].len() < 2 {
+                    enabled.push(Ev::Queue(n));
+                }
+                if !w.queued[n].is_empty() {
+                    enabled.push(Ev::Ready(n, true));
+                    enabled.push(Ev::Ready(n, false));
+                }
             }
         }
         for (i, it) in w.inflight.iter().enumerate() {
@@ -407,6 +538,9 @@ async fn run_inner(f: &mut Fixture, swap: bool, max_dials: u8, chooser: &mut Cho
             }
         };
         w.step += 1;
+        if std::env::var_os("DV_TRACE").is_some() {
+            eprintln!("step {} {:?} syncing={:?} inflight={:?}", w.step, ev, w.syncing, w.inflight);
+        }
         let dialled_before = w.last_event_was_dial_of.take();
         match ev {
             Ev::Dial(n, reason) => {
@@ -417,6 +551,14 @@ async fn run_inner(f: &mut Fixture, swap: bool, max_dials: u8, chooser: &mut Cho
                 let started = f.actors[me].verif_sync_with_peer(w.ns, peer, reason);
                 // every dial decision counts against the budget, also a refused one
                 w.dials += 1;
+                if !w.syncing[n] {
+                    if started {
+                        o.fail("C11/dial-for-a-left-document", format!("step {}: node {n} dialled for a document it has left", w.step));
+                        return Ok(());
+                    }
+                    o.class("dial-decision-for-a-left-document");
+                    continue;
+                }
                 if started {
                     if is_running(&mine_before) {
                         o.fail("C11/dial-while-running", format!("step {}: node {n} started a dial while its slot was {:?}", w.step, mine_before));
@@ -451,6 +593,68 @@ async fn run_inner(f: &mut Fixture, swap: bool, max_dials: u8, chooser: &mut Cho
                         w.refused_since_running[n] = true;
                         o.class("sync-report-refused-while-running");
                     }
+                }
+            }
+            Ev::Leave(n) => {
+                let me = w.map[n];
+                if !f.actors[me].verif_leave(w.ns).await {
+                    return Err("leave failed".into());
+                }
+                w.syncing[n] = false;
+                w.leaves += 1;
+                // the property does not speak about sessions that overlap a leave: forget them, and what the node owed
+                w.in_progress.clear();
+                w.refused_report[n] = None;
+                w.refused_since_running[n] = false;
+                w.pair = None;
+                o.class("left-the-document");
+                if !w.inflight.is_empty() {
+                    o.class("left-the-document-with-items-in-flight");
+                }
+            }
+            Ev::Join(n) => {
+                let me = w.map[n];
+                let Some(started) = f.actors[me].verif_start_sync(w.ns).await else {
+                    return Err("start_sync failed".into());
+                };
+                w.syncing[n] = true;
+                w.pair = None;
+                o.class("re-joined-the-document");
+                if started {
+                    // start_sync dials the peers the store remembers as useful (those a session finished successfully with)
+                    if w.ok_completions[n] == 0 {
+                        // the store remembers the peer of a declined / failed session: C10's clause, not C11's
+                        note.violation.get_or_insert(format!("step {}: node {n} re-joined and dialled the peer, but no session with it ever finished successfully there: the store kept a trace of a declined, lost or failed session", w.step));
+                    }
+                    let id = w.next_id;
+                    w.next_id += 1;
+                    if w.inflight.iter().any(|i| matches!(i, Item::Request { .. })) {
+                        w.two_requests_at_once = true;
+                    }
+                    w.inflight.push(Item::Request { from: n, reason: SyncReason::DirectJoin, id });
+                    o.class("re-join-dialled-the-remembered-peer");
+                }
+            }
+            Ev::Queue(n) => {
+                let me = w.map[n];
+                let h = w.next_hash;
+                w.next_hash += 1;
+                f.actors[me].verif_queue_hash(w.ns, iroh_blobs::Hash::new([h, 0x51]));
+                w.queued[n].push(h);
+            }
+            Ev::Ready(n, ok) => {
+                let me = w.map[n];
+                let h = w.queued[n].remove(0);
+                f.actors[me].verif_download_ready(w.ns, iroh_blobs::Hash::new([h, 0x51]), ok).await;
+                if !w.syncing[n] {
+                    o.class("download-completed-after-leaving");
+                }
+                if f.actors[me].verif_is_syncing(&w.ns) != w.syncing[n] {
+                    o.fail(
+                        "C11/I5-left-document-syncing-again",
+                        format!("step {}: a download completion at node {n} changed whether the document is synced there (model {}, node {})", w.step, w.syncing[n], !w.syncing[n]),
+                    );
+                    return Ok(());
                 }
             }
             Ev::Lose(i) => {
@@ -488,6 +692,13 @@ async fn run_inner(f: &mut Fixture, swap: bool, max_dials: u8, chooser: &mut Cho
                         let peer = f.ids[w.map[from]];
                         let out = f.actors[me].accept_sync_request(w.ns, peer);
                         let allowed = matches!(out, AcceptOutcome::Allow);
+                        if !w.syncing[acc] {
+                            o.class("request-for-a-left-document");
+                            if !matches!(out, AcceptOutcome::Reject(AbortReason::NotFound)) {
+                                o.fail("C11/I5-not-found", format!("step {}: node {acc} has left the document, but a request for it got {:?}", w.step, out));
+                                return Ok(());
+                            }
+                        }
                         if let Some((p1, p2, results)) = &mut w.pair {
                             if id == *p1 || id == *p2 {
                                 results.push(Some(allowed));
@@ -553,6 +764,11 @@ async fn run_inner(f: &mut Fixture, swap: bool, max_dials: u8, chooser: &mut Cho
                         let peer = f.ids[w.map[1 - at]];
                         w.in_progress.retain(|x| *x != session);
                         let res = if ok { Ok(finished(w.ns, peer)) } else { Err(ConnectError::Sync { error: anyhow::anyhow!("sync failed") }) };
+                        if ok {
+                            w.ok_completions[at] += 1;
+                        } else {
+                            note.declined_or_failed_sessions_observed += 1;
+                        }
                         let started = f.actors[me].verif_connect_finished(w.ns, peer, reason, res).await;
                         note_followup(&mut w, at, started, o, "the connector's end");
                         o.class(if ok { "connector-end-ok" } else { "connector-end-error" });
@@ -565,12 +781,17 @@ async fn run_inner(f: &mut Fixture, swap: bool, max_dials: u8, chooser: &mut Cho
                             (Some(s), _) => {
                                 w.in_progress.retain(|x| *x != s);
                                 if ok {
+                                    w.ok_completions[at] += 1;
                                     Ok(finished(w.ns, peer))
                                 } else {
+                                    note.declined_or_failed_sessions_observed += 1;
                                     Err(AcceptError::Sync { peer, namespace: Some(w.ns), error: anyhow::anyhow!("sync failed") })
                                 }
                             }
-                            (None, Some(r)) => Err(AcceptError::Abort { peer, namespace: w.ns, reason: r }),
+                            (None, Some(r)) => {
+                                note.declined_or_failed_sessions_observed += 1;
+                                Err(AcceptError::Abort { peer, namespace: w.ns, reason: r })
+                            }
                             _ => Ok(finished(w.ns, peer)),
                         };
                         let started = f.actors[me].verif_accept_finished(res).await;
@@ -613,8 +834,21 @@ async fn run_inner(f: &mut Fixture, swap: bool, max_dials: u8, chooser: &mut Cho
             return Ok(());
         }
     }
+    if lifecycle {
+        // a node at which no session finished successfully must not show a trace of the declined / lost / failed ones
+        for n in 0..2 {
+            if w.ok_completions[n] == 0 {
+                if let Some(v) = store_untouched(f, w.map[n], w.ns, "no session finished successfully at this node (declined, lost and failed ones only)").await? {
+                    note.violation.get_or_insert(v);
+                }
+            }
+        }
+    }
     // probes: a dial is accepted, and (on a fresh slot) a request is accepted
     for n in 0..2 {
+        if !w.syncing[n] {
+            continue;
+        }
         let me = w.map[n];
         let peer = f.ids[w.map[1 - n]];
         let started = f.actors[me].verif_sync_with_peer(w.ns, peer, SyncReason::NewNeighbor);
